@@ -97,7 +97,7 @@ pub fn run_one(prop: &str, base_seed: u64, tier: &str, index: u64, known: &Known
             // ... or be stricter about which parameter combinations it accepts: no property says
             // which instantiate messages must be accepted. The check reports a harness error if
             // more than half of its deployments are refused (see `check`).
-            if e.starts_with("hub instantiate") || e.starts_with("dispatcher instantiate") {
+            if e.contains(" instantiate: ") {
                 let mut st = Stats::default();
                 st.probe("deployment_rejected_at_instantiate");
                 return RunResult { index, seed, cfg, steps, violations: vec![], stats: st, harness_error: None, fault_free };
